@@ -27,7 +27,7 @@ RULE = ('each run: one seeded history (<= 14 logical operations: append, overwri
         'last, clear, flush, close+reopen, pickle+unpickle, kill+restart; ArrayPool: add_batch, '
         'remove_batch, clear, flush, save, close+open) over NpyStore / NpyArray / ArrayPool '
         '(1-3 stores) with dtype in {f8,f4,f2,i8,i4,i2,u8,u1,bool,c16,S3,>f8,>i4}, row shape (),(k,),(k,l), '
-        'batch_size 1..6, Python buffer size in {64,512,4096,8192,1MiB}; after every raw '
+        'batch_size 1..6, batch memory layout C / Fortran / strided view, Python buffer size in {64,512,4096,8192,1MiB}; after every raw '
         'write/truncate and every operation boundary the file bytes are snapshotted; EVERY '
         'snapshot taken after the first flush is evaluated as a crash point (enumerated '
         'exhaustively per history). distinct = (object kind, abstract history = op kinds with '
@@ -55,10 +55,11 @@ DTYPES = ['f8', 'f4', 'i8', 'i4', 'u1', 'bool', 'c16', 'f2', 'i2', 'u8', 'S3', '
 class Gen:
     """Unique batch contents."""
 
-    def __init__(self, dtype, rshape):
+    def __init__(self, dtype, rshape, tape=None):
         self.dtype = np.dtype(dtype)
         self.rshape = rshape
         self.counter = 0
+        self.tape = tape
 
     def rows(self, n):
         self.counter += 1
@@ -74,7 +75,19 @@ class Gen:
             a = base.astype(np.float64) + 1j * (base % 13)
         else:
             a = base
-        return np.asarray(a).astype(self.dtype).reshape((n,) + tuple(self.rshape))
+        a = np.asarray(a).astype(self.dtype).reshape((n,) + tuple(self.rshape))
+        if self.tape is None:
+            return a
+        # the memory layout of a batch is an input dimension too: C-contiguous, column-major
+        # (e.g. a simulator that builds (dim, batch) and transposes) or a strided view
+        lay = self.tape.choice('layout', ['C', 'C', 'F', 'strided'])
+        if lay == 'F' and a.ndim >= 2:
+            return np.asfortranarray(a)
+        if lay == 'strided':
+            big = np.zeros((2 * n,) + tuple(self.rshape), dtype=self.dtype)
+            big[::2] = a
+            return big[::2]
+        return a
 
 
 def concat(state, dtype, rshape):
@@ -225,7 +238,7 @@ def run_store(tape, out, fs, root, estore, kind):
     dtype = tape.choice('dtype', DTYPES)
     rshape = tape.choice('row_shape', [(), (2,), (3,), (2, 2)])
     bs = tape.int('batch_size', 1, 6)
-    gen = Gen(dtype, rshape)
+    gen = Gen(dtype, rshape, tape)
     path = os.path.join(root, 'a.npy')
     f = FileModel(path, dtype, rshape)
     h = History(out, fs, [f])
@@ -465,7 +478,7 @@ def run_pool(tape, out, fs, root, elfi, estore):
     for nm in names:
         dt = tape.choice('dtype', DTYPES)
         rs = tape.choice('row_shape', [(), (2,), (2, 2)])
-        gens[nm] = Gen(dt, rs)
+        gens[nm] = Gen(dt, rs, tape)
         files.append(FileModel(os.path.join(root, 'p', nm + '.npy'), dt, rs))
     h = History(out, fs, files)
     pool = estore.ArrayPool(names, name='p', prefix=root)
